@@ -236,29 +236,6 @@ theorem C17_fallback_after_load (r0 : Repo) (depth : Int) (hd : 0 ≤ depth) (g 
   obtain ⟨rl, hl, hok⟩ := load_sound r0 depth hd g hst
   exact ⟨rl, hl, fun hh => C01_forest_ops ops rl hok.forest ⟨hok.tip, hok.heaviest⟩ hh⟩
 
-/-- the identities (`IdOK`: no hash held twice, complete height maps) survive every forest history. -/
-theorem idOK_forest_ops (ops : List FOp) : ∀ (r : Repo), ForestOK r → TipMax r → IdOK r → FHist r ops →
-    ForestOK (ops.foldl applyF r) ∧ IdOK (ops.foldl applyF r) := by
-  induction ops with
-  | nil => intro r hf _ hi _; exact ⟨hf, hi⟩
-  | cons op rest ih =>
-    intro r hf hm hi hh
-    obtain ⟨hop, hrest⟩ := hh
-    have hstep := C01_forest_ops [op] r hf hm ⟨hop, trivial⟩
-    simp only [List.foldl_cons, List.foldl_nil] at hstep
-    simp only [List.foldl_cons]
-    refine ih _ hstep.1 hstep.2 ?_ hrest
-    cases op with
-    | submit h ok => exact idOK_processHeader_clean r h ok hf hi hop.2
-    | clean d => exact idOK_cleanWith r hf hi hop.2 d hop.1
-    | save =>
-      obtain ⟨h1, h2, _⟩ := save_frame_rootFirst r hop
-      exact idOK_of_frame r _ hi h1 h2
-    | mark id => exact idOK_markInvalid r hf hi id
-    | unmark id =>
-      obtain ⟨h1, h2, _⟩ := markNotInvalid_frame r id
-      exact idOK_of_frame r _ hi h1 h2
-
 /-- **C17 (exclusion) from any loaded state.** Load any consistent storage image in which no hash occurs twice;
     run any forest history (submissions with automatic cleans, Cleans/Saves with no reorganisation pending, marks,
     unmarks); then mark a header that is not yet marked: if the mark succeeds, the chain of NO tracked branch —
